@@ -49,8 +49,8 @@ CHECKS = {
    text="Race-instrumented children run short concurrent histories on one log (free-running, seeded noise, and a sweep parking one worker at every hook point - and while it holds a RawHeads() result - while every other operation kind runs, also with a merge source that is ahead of the log); operation kinds include bounded iterations and merges FROM the shared log; a bounded-merge workload (race / deadlock) and one whose bounds cannot trim (no append may be lost); oracles: race reports with both stacks in the library, state-based deadlock verdicts, exactly-once / real-time-implies-causal / one-chain checks, porcupine against a sequential log model, structural monitors on every read; after each history one more publication must name the log's current heads.",
    note="Interleavings are sampled; the sweep is exhaustive only at hook granularity with one preemption. Reads are not required to be linearizable."),
  "C14": dict(cat="exploration", ref="§3 C14", tech="offline window checker over exactly recorded single-mutator state chains + directed parking between the source reads + deadlock classifier + race detector",
-   text="Live-append, live-merge, cross-merge, ring, four-party, stalled-reader, ladder (logical step bound), after-refusals, hub, constant-size-source and busy-source (one append to the source completes after every read the merge makes of it; termination decided on logical steps) scenarios; every merge result must be before U S_i for a source state S_i recorded inside the call/return window, with heads an exact function of the result, causal closure w.r.t. all entries ever created, and termination.",
-   note="Each log has one mutator goroutine so its state chain is known exactly; window bounds come from one atomic logical clock."),
+   text="Live-append, live-merge, cross-merge, ring, four-party, stalled-reader, ladder (logical step bound), after-refusals, hub, constant-size-source, busy-source (one append to the source completes after every read the merge makes of it; termination decided on logical steps) and shrinking-source (a size-bounded merge into the source between the two reads - the recorded finding) scenarios; every merge result must be before U S_i for a source state S_i recorded inside the call/return window, with heads an exact function of the result, causal closure w.r.t. all entries ever created, and termination.",
+   note="Each log has one mutator goroutine so its state chain is known exactly; window bounds come from one atomic logical clock. One recorded finding: a size-bounded merge INTO the source that completes between the two reads Join makes of it (scenario shrinking-source; matched narrowly by scenario kind)."),
  "C15": dict(cat="exploration", ref="§3 C15", tech="runtime monitor: exact expected-sequence oracle from the reference model for seeded iterator queries, run under recover with post-return channel drain",
    text="Seeded option combinations (default / 1-3 inclusive / exclusive / unknown upper bounds, inclusive / exclusive lower bounds inside the range, undefined identifiers as bounds, amounts 0..size+2) on forked logs; sequence, closure, error and no-panic clauses; in child processes every kind of bounded iteration is parked at its hook points while a writer starts on the same log, and trimmed logs are iterated at their oldest entry before a writer runs (state-based deadlock classifier).",
    note="With several causally related inclusive bounds plus an amount the oracle tolerates a prefix short by at most #bounds-1 ('at most' in the property)."),
